@@ -244,6 +244,7 @@ def worker_main(argv):
   n_unknown = 0
   known = load_known()
   known_hits = {}
+  executed = []
   t0 = time.time()
   idxs = range(w, nruns, nw)
   for n, i in enumerate(idxs):
@@ -251,6 +252,7 @@ def worker_main(argv):
       agg['deadline_hit'] = True
       break
     rs = run_seed(batch_seed, prop, i)
+    executed.append(i)
     plan = mod.generate(rs, tier)
     plan['run_seed'] = rs
     plan['index'] = i
@@ -304,6 +306,12 @@ def worker_main(argv):
         v = dict(r2.violation)
       small['expect'] = dict(kind=v['kind'], detail=v.get('detail', ''), digest=r2.digest)
       small['property'] = prop
+      if getattr(mod, 'CROSS_RUN_STATE', False) and f0 is None:
+        # properties about hidden process state: a violation may depend on what EARLIER runs of this worker
+        # process left behind.  Confirm in a fresh interpreter; fall back to the unshrunk plan, then to a
+        # replay file that carries the preceding runs of this process as a prelude (shortest suffix that fails).
+        small = _confirm_fresh(mod, prop, tier, batch_seed, small, plan0, kind, executed, outfile)
+        v = dict(kind=small['expect']['kind'], detail=small['expect']['detail'], last_fault=v.get('last_fault'))
       sig = mod.signature(small, v) if hasattr(mod, 'signature') else {}
       agg['violations'].append(dict(index=i, run_seed=rs, kind=v['kind'], detail=v.get('detail', ''), plan=small, signature=sig, orig_ops=len(plan.get('ops', []))))
       f1 = match_known(prop, dict(kind=v['kind'], signature=sig), known)
@@ -330,6 +338,53 @@ def worker_main(argv):
   os._exit(0)  # native threads of jax/tf must not delay exit
 
 
+def _fresh(plan, tmp):
+  with open(tmp, 'w') as f:
+    json.dump(plan, f, default=str)
+  try:
+    return replay_file(tmp, timeout=900)
+  except Exception as e:  # noqa: BLE001
+    return dict(violation=None, digest='', error=repr(e))
+
+
+def _confirm_fresh(mod, prop, tier, batch_seed, small, plan0, kind, executed, outfile):
+  tmp = outfile + '.replay.json'
+
+  def ok(rr, p):
+    return bool(rr.get('violation')) and rr['violation']['kind'] == kind
+
+  rr = _fresh(small, tmp)
+  if ok(rr, small):
+    small['expect'] = dict(kind=kind, detail=rr['violation'].get('detail', ''), digest=rr['digest'])
+    return small
+  cand = json.loads(canon(plan0))
+  cand['property'] = prop
+  rr = _fresh(cand, tmp)
+  if ok(rr, cand):
+    cand['expect'] = dict(kind=kind, detail=rr['violation'].get('detail', ''), digest=rr['digest'])
+    cand['_note'] = 'unshrunk: the minimised plan failed only in the polluted worker process'
+    return cand
+  prev = executed[:-1]
+  k = 1
+  tried = 0
+  while prev and tried < 12:
+    pre = prev[-k:]
+    cand = json.loads(canon(plan0))
+    cand['property'] = prop
+    cand['prelude'] = dict(batch_seed=batch_seed, tier=tier, indices=pre)
+    rr = _fresh(cand, tmp)
+    tried += 1
+    if ok(rr, cand):
+      cand['expect'] = dict(kind=kind, detail=rr['violation'].get('detail', ''), digest=rr['digest'])
+      cand['_note'] = f'needs the {len(pre)} preceding run(s) of the same process as prelude: hidden state leaked across histories'
+      return cand
+    if k >= len(prev):
+      break
+    k = min(len(prev), k * 4)
+  small['_note'] = 'did not reproduce in a fresh interpreter, alone or after the preceding runs'
+  return small
+
+
 def replay_main(path):
   """Executes a replay file in this (fresh) interpreter; prints one JSON line."""
   plan = json.load(open(path))
@@ -341,6 +396,13 @@ def replay_main(path):
   gc.collect()
   gc.freeze()
   gc.disable()
+  pre = plan.get('prelude')
+  if pre:
+    for i in pre['indices']:
+      try:
+        mod.execute(mod.generate(run_seed(pre['batch_seed'], plan['property'], i), pre['tier']))
+      except Exception:  # noqa: BLE001
+        pass
   res = mod.execute(plan)
   out = dict(violation=res.violation, digest=res.digest)
   print('REPLAY-RESULT ' + canon(out))
